@@ -791,6 +791,19 @@ pub fn drive(
                         check(rep, &pats, &b, &hay, sp);
                     }
                 }
+                // one searcher in five also gets a long haystack (lengths just
+                // above 256 and around 1 KiB, 4 KiB, 16 KiB, 64 KiB)
+                if !big && rng.chance(1, 5) {
+                    let target = gen::long_length(&mut rng);
+                    let hay = gen::long_haystack(&mut rng, &pats, &alpha, target);
+                    rep.tally("long_haystacks");
+                    if hay.len() > 60_000 {
+                        rep.tally("long_haystacks_64k");
+                    }
+                    check(rep, &pats, &b, &hay, (0, hay.len()));
+                    let sp = gen::span(&mut rng, hay.len());
+                    check(rep, &pats, &b, &hay, sp);
+                }
             }
         }
     }
